@@ -330,6 +330,7 @@ type Case struct {
 	Root    string `json:"root"`          // name of the context variable that holds the root
 	Steps   []Step `json:"steps"`
 	Cuts    []Cut  `json:"cuts,omitempty"`
+	Twice   bool   `json:"twice,omitempty"` // the final expression is emitted twice: <%= e %>+<%= e %>
 }
 
 var ctxInts = []int{-1, 0, 1, 2, 3}
@@ -397,7 +398,11 @@ func (c Case) template() string {
 		}
 		expr += s.src()
 	}
-	sb.WriteString("<%= " + expr + " %>" + closing)
+	sb.WriteString("<%= " + expr + " %>")
+	if c.Twice {
+		sb.WriteString("+<%= " + expr + " %>")
+	}
+	sb.WriteString(closing)
 	return sb.String()
 }
 
@@ -991,6 +996,19 @@ func refNilAtMethod(start cur, c Case) bool {
 
 type failFn func(class, f string, a ...interface{}) *vk.Fail
 
+// untwice splits the output of a Twice case into its two renderings and
+// returns the one to be judged: the one that is not exact, if any.
+func untwice(out, exact string) (string, string) {
+	parts := strings.Split(out, "+")
+	if len(parts) != 2 {
+		return "", fmt.Sprintf("output %q is not two renderings separated by +", out)
+	}
+	if parts[0] == exact {
+		return parts[1], ""
+	}
+	return parts[0], ""
+}
+
 func (c Case) key() string { b, _ := json.Marshal(c); return string(b) }
 
 func nonTrivial(c Case, completable bool) bool {
@@ -1017,6 +1035,13 @@ func sample(r *vk.Run, c Case, src, expect string, res vk.Res) {
 func judge(r *vk.Run, c Case, w walkRes, res vk.Res, path, where string, fail failFn) *vk.Fail {
 	sig := c.sig()
 	src := c.template()
+	if c.Twice && res.Err == nil {
+		var bad string
+		if res.Out, bad = untwice(res.Out, path); bad != "" {
+			shapeStats.add(sig, 3)
+			return fail("", "%s: %s", where, bad)
+		}
+	}
 	cleanFail := res.Err != nil || res.Out == ""
 	switch {
 	case w.unspec != "":
@@ -1204,6 +1229,13 @@ func judgeFor(r *vk.Run, c Case, fc int, start cur, res vk.Res, where string, fa
 		}
 		k, v := sg[:eq], sg[eq+1:]
 		exp, known := want[k]
+		if c.Twice && known {
+			var bad string
+			if v, bad = untwice(v, exp); bad != "" {
+				shapeStats.add(sig, 3)
+				return fail("", "%s: element %s: %s (whole output %q)", where, k, bad, res.Out)
+			}
+		}
 		if !known || seen[k] {
 			shapeStats.add(sig, 3)
 			return fail("", "%s: output %q: key %q is not a key of the collection, or came twice (keys %v)", where, res.Out, k, keysOf(want))
@@ -1503,27 +1535,35 @@ func deepPaths(emit func(steps []Step)) {
 	}
 }
 
-// usages lists the cut sets tried for a path in the exhaustive phase: plain
-// emit, one let at every position, one for at every index step, and
-// let-then-for / for-then-let pairs around each index step.
-func usages(steps []Step, letName string) [][]Cut {
-	out := [][]Cut{nil}
+// usage: how a path is placed in a template.
+type usage struct {
+	cuts  []Cut
+	twice bool
+}
+
+// usages lists the placements tried for a path in the exhaustive phase: plain
+// emit (once and twice), one let at every position (twice when the variable
+// is indexed directly), one for at every index step, and let-then-for /
+// for-then-let pairs around each index step.
+func usages(steps []Step, letName string) []usage {
+	out := []usage{{nil, false}, {nil, true}}
 	for at := 0; at < len(steps); at++ {
-		out = append(out, []Cut{{At: at, V: letName}})
+		out = append(out, usage{[]Cut{{At: at, V: letName}}, false})
 		if steps[at].X {
-			out = append(out, []Cut{{At: at, For: true, V: "e"}})
+			out = append(out, usage{[]Cut{{At: at, V: letName}}, true})
+			out = append(out, usage{[]Cut{{At: at, For: true, V: "e"}}, false})
 			if at+1 < len(steps) {
-				out = append(out, []Cut{{At: at, For: true, V: "e"}, {At: at + 1, V: letName}})
+				out = append(out, usage{[]Cut{{At: at, For: true, V: "e"}, {At: at + 1, V: letName}}, at+2 < len(steps) && steps[at+1].X})
 			}
 			if at > 0 {
-				out = append(out, []Cut{{At: at - 1, V: letName}, {At: at, For: true, V: "e"}})
+				out = append(out, usage{[]Cut{{At: at - 1, V: letName}, {At: at, For: true, V: "e"}}, false})
 			}
 		}
 	}
 	return out
 }
 
-const rule = "data: Root/Mid/Leaf graphs (value and pointer fields, nil pointers, slices, arrays, map[string], map[int], slices/maps of pointers with nil elements, interface-typed fields, value- and pointer-receiver methods with 0-2 arguments returning strings, structs, pointers, slices and maps; the field names Name, Arr, M, IM, Any repeat at all three depths) in 2 recipes x root passed as Root or *Root; every leaf string spells its own Go path with [A-Za-z0-9_.\\[\\]()] only. Paths: walks over the TYPE graph by reflection (field, index/key, method-call steps; literal and context-variable indexes, keys and arguments), (E) every walk of <= L steps (quick 3 + every 5th of length 4, thorough 4) that ends at a string or at a deliberately broken step (missing key, index = len or beyond, negative index, wrong key type, unknown / unexported member, field called as method, indexing a struct; nil pointers come from the data), (R) random walks of up to 7 steps with random root and variable names. Each path is used in <%= %>, behind `let v = prefix` at every position, and as a `for (kk, v) in prefix` iterable at every index step (the rest continues from the loop variable), also let+for combined. Reference: a reflection walk of the same steps over a fresh copy of the same data. Verdict: completable => output == the leaf's spelled path; not completable => error or empty output; panic or any other text => violation. Non-trivial = broken path, or completable path of >= 3 steps containing an index, a method call or a cut; distinct by (recipe, root form, names, steps, cuts)."
+const rule = "data: Root/Mid/Leaf graphs (value and pointer fields, nil pointers, slices, arrays, map[string], map[int], slices/maps of pointers with nil elements, interface-typed fields, value- and pointer-receiver methods with 0-2 arguments returning strings, structs, pointers, slices and maps; the field names Name, Arr, M, IM, Any repeat at all three depths) in 2 recipes x root passed as Root or *Root; every leaf string spells its own Go path with [A-Za-z0-9_.\\[\\]()] only. Paths: walks over the TYPE graph by reflection (field, index/key, method-call steps; literal and context-variable indexes, keys and arguments), (E) every walk of <= L steps (quick 3 + every 5th of length 4, thorough 4) that ends at a string or at a deliberately broken step (missing key, index = len or beyond, negative index, wrong key type, unknown / unexported member, field called as method, indexing a struct; nil pointers come from the data), (R) random walks of up to 7 steps with random root and variable names. Each path is used in <%= %> (once, and twice in a row), behind `let v = prefix` at every position, and as a `for (kk, v) in prefix` iterable at every index step (the rest continues from the loop variable), also let+for combined. Reference: a reflection walk of the same steps over a fresh copy of the same data. Verdict: completable => output == the leaf's spelled path; not completable => error or empty output; panic or any other text => violation. Non-trivial = broken path, or completable path of >= 3 steps containing an index, a method call or a cut; distinct by (recipe, root form, names, steps, cuts)."
 
 func setup(t *testing.T) *vk.Run {
 	r := vk.Start(t, "C11", rule,
@@ -1587,26 +1627,31 @@ func TestProp(t *testing.T) {
 	})
 	type cell struct {
 		path int32
-		cuts []Cut
+		u    usage
 		v    int8
 	}
 	var cells []cell
 	for i, p := range paths {
-		for _, cuts := range usages(p.steps, []string{"x", "M"}[i%2]) {
+		for _, u := range usages(p.steps, []string{"x", "M"}[i%2]) {
 			for variant := 0; variant < 2; variant++ {
-				cells = append(cells, cell{int32(i), cuts, int8(variant)})
+				cells = append(cells, cell{int32(i), u, int8(variant)})
 			}
 		}
 	}
 	ncases := int64(len(cells))
+	var nwalkCases int64
+	for _, k := range cells {
+		if int(k.path) < nwalk {
+			nwalkCases++
+		}
+	}
 	r.Parallel(ncases, 0, func(i int64) {
 		k := cells[i]
-		c := Case{Variant: int(k.v), Ptr: (int(k.path)+int(k.v))%2 == 1, Root: "r", Steps: paths[k.path].steps, Cuts: k.cuts}
+		c := Case{Variant: int(k.v), Ptr: (int(k.path)+int(k.v))%2 == 1, Root: "r", Steps: paths[k.path].steps, Cuts: k.u.cuts, Twice: k.u.twice}
 		r.Check(checkCase(r, c))
 	})
-	_ = nwalk
-	r.Subspace(fmt.Sprintf("paths with 2 or 3 indexed levels r.C1[i].C2[j].C3[k] / r.C1[i].C2[j].tail over every combination of collection-valued members (x 2 index choices x 4 literal/variable patterns; quick tier: every 3rd) x usages x 2 data recipes: %d paths", ndeep), ndeep, r.Thorough())
-	r.Subspace(fmt.Sprintf("all type-graph walks of <= %d steps ending at a leaf or a broken step, literal x variable indexes (%d paths) x usages (emit, let at each position, for at each index step, let+for) x 2 data recipes", L, full), ncases, true)
+	r.Subspace(fmt.Sprintf("all type-graph walks of <= %d steps ending at a leaf or a broken step, literal x variable indexes (%d paths) x usages (emit once/twice, let at each position, for at each index step, let+for) x 2 data recipes", L, full), nwalkCases, true)
+	r.Subspace(fmt.Sprintf("paths with 2 or 3 indexed levels r.C1[i].C2[j].C3[k] and r.C1[i].C2[j].tail over every combination of collection-valued members x 2 index choices x 4 literal/variable patterns (%d paths; the quick tier takes every 3rd) x usages x 2 data recipes", ndeep), ncases-nwalkCases, r.Thorough())
 
 	if debug {
 		fmt.Printf("E phase done after %v\n", time.Since(t0))
@@ -1680,6 +1725,7 @@ func genCase(t *rapid.T) Case {
 			break
 		}
 	}
+	c.Twice = rapid.IntRange(0, 3).Draw(t, "twice") == 0
 	// cuts
 	nc := rapid.IntRange(0, 3).Draw(t, "cuts")
 	last := -1
